@@ -241,6 +241,16 @@ pub fn data_reply(message_id: &str, tag: &str) -> Vec<u8> {
         .into_bytes()
 }
 
+/// a data reply of at least `size` bytes: the padding is a comment after `<data>`, so that the
+/// value the caller receives is still `tag`
+pub fn data_reply_padded(message_id: &str, tag: &str, size: usize) -> Vec<u8> {
+    let mut pad = String::with_capacity(size);
+    while pad.len() < size {
+        pad.push_str("padding padding padding padding padding padding padding padding ");
+    }
+    format!("<rpc-reply xmlns=\"{BASE_NS}\" message-id=\"{message_id}\"><data>{tag}</data><!-- {pad} --></rpc-reply>{MARKER}").into_bytes()
+}
+
 pub fn ok_reply(message_id: &str) -> Vec<u8> {
     format!("<rpc-reply xmlns=\"{BASE_NS}\" message-id=\"{message_id}\"><ok/></rpc-reply>{MARKER}").into_bytes()
 }
